@@ -225,6 +225,8 @@ def item(draw, names, rich=True, keys=None, want_zid=None):
 
 def line_text(ln) -> str:
     if "bprop" in ln:
+        if not ln["bprop"][1]:
+            return ln["ind"] + ln["bprop"][0] + "::" + ln.get("trail", "")  # a property left empty
         return ln["ind"] + ln["bprop"][0] + ":: " + " ".join(ln["bprop"][1]) + ln.get("trail", "")
     return ln["ind"] + " ".join(w["s"] for w in ln["words"]) + ln.get("trail", "")
 
